@@ -655,6 +655,7 @@ NewBig ==
        IN  IF ~BigOk(e.base) THEN ToolErr(e, "malformed base of a big bit structure") /\ Advance(ResOk(0, {}), objs)
            ELSE IF e.out = 0 THEN Advance(ResOk(1, {tag}), Put(e.o, Obj("BIG", e.kind, "", 0, <<l>>, FALSE)))
            ELSE IF e.out = NA THEN ToolErr(e, "constructor not available") /\ Advance(ResOk(0, {}), objs)
+           ELSE IF e.out = -9 THEN Advance(ResOk(0, {"BIG.skipped_low_memory"}), objs)   \* not attempted
            ELSE Advance(ResBad(Mis(e, NoObj, tag, 0, 0, e.out, {0}), {tag}), objs)
 
 QBig ==
